@@ -11,8 +11,8 @@ import copy
 from hedmon.gen import annot
 from hedmon.oracle import hedparse
 
-CAT_COLS = ["trial_type", "response", "stim_file", "cond", "block"]
-VAL_COLS = ["rt", "score", "contrast"]
+CAT_COLS = ["trial_type", "response", "stim_file", "cond", "block", "stim-file", "Cond2", "resp-hand_2"]
+VAL_COLS = ["rt", "score", "contrast", "rt-2", "Score_B"]
 IGN_COLS = ["notes", "sample"]
 CAT_KEYS = ["go", "stop", "left", "right", "k1", "k2", "3", "4.0"]
 NA = "n/a"
